@@ -34,7 +34,8 @@ VARIABLES
   finalNL,  \* BOOLEAN       the last line is newline-terminated
   barOn,    \* BOOLEAN       a progress bar exists (file input and --outputFile, or Atlas mode)
   wr,       \* [k, kind]     the k-th output write fails: kind "err" (nothing written, and every later write fails too: a full
-            \*               disk stays full) | "once" (only that write fails) | "short" (part written) | "none"
+            \*               disk stays full) | "once" (only that write fails) | "short" (part written) | "shortonce" (part written, and only that
+            \*               write fails: a device that is busy for a moment - EAGAIN, EINTR) | "none"
   rd,       \* [line, mid, on] reading fails in front of line `line` (mid: after part of that line was delivered)
   pos,      \* number of lines the scanner has handed out
   cur,      \* kind of the token being processed, "partial" for the rest of a line cut by a read error, or None
@@ -61,7 +62,7 @@ ObjIdx(n) == SelectSeq([i \in 1..n |-> i], LAMBDA i : input[i] \in ObjKinds)
 
 TypeOK ==
   /\ input \in Seq(Kinds) /\ finalNL \in BOOLEAN /\ barOn \in BOOLEAN
-  /\ wr.kind \in {"none", "err", "once", "short"} /\ wr.k \in Nat
+  /\ wr.kind \in {"none", "err", "once", "short", "shortonce"} /\ wr.k \in Nat
   /\ rd.on \in BOOLEAN /\ rd.mid \in BOOLEAN /\ rd.line \in 1..(NLines + 1)
   /\ pos \in 0..NLines /\ cur \in Kinds \cup {None, "partial"}
   /\ status \in {"running", "ok", "failed"} /\ cause \in {"none", "write", "read", "toolong"}
@@ -124,7 +125,7 @@ ParseFail ==
   /\ cur' = None /\ barCur' = BarAdd
   /\ UNCHANGED <<envVars, pos, out, tail, nwrites, rdHit, faulted, status, cause>>
 
-WriteFails == wr.kind # "none" /\ (IF wr.kind = "once" THEN nwrites + 1 = wr.k ELSE nwrites + 1 >= wr.k)
+WriteFails == wr.kind # "none" /\ (IF wr.kind \in {"once", "shortonce"} THEN nwrites + 1 = wr.k ELSE nwrites + 1 >= wr.k)
 
 Emit ==
   /\ status = "running" /\ cur \in ObjKinds /\ ~WriteFails
@@ -135,7 +136,7 @@ Emit ==
 EmitWriteFail ==
   /\ status = "running" /\ cur \in ObjKinds /\ WriteFails
   /\ nwrites' = nwrites + 1
-  /\ tail' = IF wr.kind = "short" /\ nwrites + 1 = wr.k THEN pos ELSE 0
+  /\ tail' = IF wr.kind \in {"short", "shortonce"} /\ nwrites + 1 = wr.k THEN pos ELSE 0
   /\ status' = "failed" /\ cause' = "write" /\ faulted' = TRUE
   /\ UNCHANGED <<envVars, pos, cur, out, barCur, rdHit>>
 
